@@ -102,7 +102,13 @@ def realise(n, edges, kind, rng, kinds=None):
     for i in range(n):
         k = kinds[i] if kinds else kind
         if not succ[i]:
-            tl.append("  Ty%d : (A%d, B%d);" % (i, i, i))
+            # what a chain of references ends at: an enumeration, a subrange, an array, a string, a structure of elementary
+            # elements -- or nothing at all (the type is not declared)
+            lk = rng.randrange(8) if rng is not None else (i * 5 + n) % 8
+            if lk == 7 and any(b == i for a, b in edges):
+                continue
+            tl.append("  Ty%d : %s;" % (i, ["(A%d, B%d)" % (i, i), "(A%d, B%d)" % (i, i), "INT (0..%d)" % (i + 1), "ARRAY[1..2] OF INT",
+                                           "STRING[%d]" % (i + 5), "STRUCT a : INT; END_STRUCT", "WSTRING[3]", "(A%d, B%d)" % (i, i)][lk]))
             decls.append("L %d" % (i + 1))
         elif k == "alias" and len(succ[i]) == 1:
             tl.append("  Ty%d : %s;" % (i, rc(rng, "Ty%d" % succ[i][0])))
@@ -223,6 +229,7 @@ def search(run, info):
         "rule": "every digraph on 1-3 nodes (self-loops included) and %s 4-node digraphs, each realised as a function-block instance "
                 "graph, a structure graph, an alias graph (when every out-degree is <= 1), a mixed alias/structure graph and a "
                 "containment graph whose nodes are function blocks and structures at random, "
+                "a node without successors being an enumeration, subrange, array, string, structure or not declared at all, "
                 "references spelled in random letter case for half of them; random graphs with 5-12 nodes; chains of 50/200, "
                 "complete DAGs, diamonds, each also with one closing edge; non-trivial = at least one edge, distinct by "
                 "(realisation, nodes, edge set)" % ("all 65536" if run.tier == "thorough" else "400 sampled"),
